@@ -36,7 +36,7 @@ type SoupField struct {
 }
 
 type parseCase struct {
-	Base   int // 0 encoded generated profile, 1 independent wire writer, 2 corpus file, 3 wire soup, 4 binary cpu words, 5 raw bytes
+	Base   int // 0 encoded generated profile, 1 independent wire writer, 2 corpus file, 3 wire soup, 4 binary cpu words, 5 raw bytes, 6 legacy text from token pools
 	P      *gen.Prof
 	Tape   []byte
 	Seed   uint64
@@ -47,6 +47,7 @@ type parseCase struct {
 	BigEnd bool
 	Tail   string
 	Raw    []byte
+	Text   string // base 6: legacy text document assembled from token pools
 	Muts   []Mut
 	Gzip   int // 0 none, 1 gzip, 2 gzip then mutate the compressed stream
 }
@@ -116,7 +117,7 @@ func genSoup(t *rapid.T, depth int) []SoupField {
 
 func genCase(t *rapid.T) *parseCase {
 	loadCorpus()
-	c := &parseCase{Base: rapid.SampledFrom([]int{0, 0, 0, 1, 1, 2, 2, 2, 3, 3, 4, 4, 5}).Draw(t, "base")}
+	c := &parseCase{Base: rapid.SampledFrom([]int{0, 0, 0, 1, 1, 2, 2, 2, 3, 3, 4, 4, 5, 6, 6, 6}).Draw(t, "base")}
 	switch c.Base {
 	case 0, 1:
 		c.P = gen.Profile(t, profOpts)
@@ -153,6 +154,8 @@ func genCase(t *rapid.T) *parseCase {
 		c.Tail = rapid.SampledFrom([]string{"", "MAPPED_LIBRARIES:\n00400000-00401000 r-xp 00000000 00:00 0 /bin/app\n", "00400000-00401000 r-xp 00000000 00:00 0 /bin/app\n", "garbage\n", "build=xyz\n"}).Draw(t, "tail")
 	case 5:
 		c.Raw = rapid.SliceOfN(rapid.Byte(), 0, 64).Draw(t, "raw")
+	case 6:
+		c.Text = genLegacyText(t)
 	}
 	nm := rapid.SampledFrom([]int{0, 1, 1, 1, 2, 3}).Draw(t, "nmuts")
 	for i := 0; i < nm; i++ {
@@ -460,6 +463,8 @@ func (c *parseCase) Input() []byte {
 		data = append(b, c.Tail...)
 	case 5:
 		data = c.Raw
+	case 6:
+		data = []byte(c.Text)
 	}
 	if c.Gzip == 2 {
 		data = gz(data)
@@ -654,7 +659,7 @@ func pretty(c *parseCase) any {
 }
 
 var spec = vk.Spec[parseCase]{ID: "C02", Facet: "parse", Quick: 5000, Thorough: 40000, Gen: genCase, Check: check, Pretty: pretty, CaseTimeout: 60 * time.Second,
-		Rule: "byte strings from six bases (real encoder output of generated profiles, the harness's independent profile.proto writer, every testdata file incl. all legacy formats plus hostile legacy constants, wire-format field soups with lying length prefixes, binary CPU word streams of both word sizes/endiannesses with hostile counts and depths, raw bytes) x up to 3 structure-aware mutations (truncate, bit flip, byte set, delete/duplicate range, insert varint, replace the k-th varint of the message tree by hostile/±1/top-bit values, self-concatenation, line delete/duplicate/swap, hostile numeric tokens) x gzip wrapping before or after mutation; oracle: no panic, Parse==ParseData verdict, validity predicate V, unit-list length, and the downstream battery (Write/Copy/Compact/Merge/String/RemoveUninteresting + 12 report formats x 2 granularities) without panic; non-trivial = accepted, or rejected after format sniffing succeeded"}
+	Rule: "byte strings from six bases (real encoder output of generated profiles, the harness's independent profile.proto writer, every testdata file incl. all legacy formats plus hostile legacy constants, wire-format field soups with lying length prefixes, binary CPU word streams of both word sizes/endiannesses with hostile counts and depths, raw bytes) x up to 3 structure-aware mutations (truncate, bit flip, byte set, delete/duplicate range, insert varint, replace the k-th varint of the message tree by hostile/±1/top-bit values, self-concatenation, line delete/duplicate/swap, hostile numeric tokens) x gzip wrapping before or after mutation; oracle: no panic, Parse==ParseData verdict, validity predicate V, unit-list length, and the downstream battery (Write/Copy/Compact/Merge/String/RemoveUninteresting + 12 report formats x 2 granularities) without panic; non-trivial = accepted, or rejected after format sniffing succeeded"}
 
 func TestPropParse(t *testing.T) { vk.Main(t, spec) }
 
@@ -686,3 +691,97 @@ func FuzzParse(f *testing.F) {
 }
 
 var _ = sort.Strings
+
+// genLegacyText assembles a document that resembles one of the legacy text formats: a header of the
+// format, records built from number/address pools, optional attribute lines, and a memory-map section
+// whose lines are built from hostile pools (odd ranges, permissions, file names).
+func genLegacyText(t *rapid.T) string {
+	num := func(l string) string {
+		return rapid.SampledFrom([]string{"0", "1", "2", "7", "100", "524288", "4294967296", "9223372036854775807", "9223372036854775808", "18446744073709551615", "-1", "-9223372036854775808", "007", "0x10", "1e3", "", "x"}).Draw(t, l)
+	}
+	addr := func(l string) string {
+		return rapid.SampledFrom([]string{"0x0", "0x1", "0x400100", "0x400fff", "0x401000", "0x7fffffffffff", "0xffffffffffffffff", "0x10000000000000000", "0xzz", "400100", "0x", "-0x1"}).Draw(t, l)
+	}
+	stack := func() string {
+		n := rapid.IntRange(0, 4).Draw(t, "depth")
+		var a []string
+		for i := 0; i < n; i++ {
+			a = append(a, addr("pc"))
+		}
+		return strings.Join(a, " ")
+	}
+	var b strings.Builder
+	kind := rapid.IntRange(0, 6).Draw(t, "lkind")
+	nrec := rapid.IntRange(0, 4).Draw(t, "nrec")
+	switch kind {
+	case 0, 1: // heap
+		b.WriteString("heap profile: " + num("a") + ": " + num("b") + " [" + num("c") + ": " + num("d") + "] @ " +
+			rapid.SampledFrom([]string{"heapprofile", "heap_v2/524288", "heap_v2/0", "heap_v2/-1", "heap/1", "growthz", "fragmentationz", "heap_v2/", "nosuch"}).Draw(t, "variant") + "\n")
+		for i := 0; i < nrec; i++ {
+			b.WriteString(num("a") + ": " + num("b") + " [" + num("c") + ": " + num("d") + "] @ " + stack() + "\n")
+		}
+	case 2: // go count
+		b.WriteString(rapid.SampledFrom([]string{"goroutine", "threadcreate", "heap", "x"}).Draw(t, "cname") + " profile: total " + num("tot") + "\n")
+		for i := 0; i < nrec; i++ {
+			b.WriteString(num("n") + " @ " + stack() + "\n")
+			if rapid.Bool().Draw(t, "sym") {
+				b.WriteString("#\t0x400100\tmain.f+0x10\t/src/main.go:12\n")
+			}
+		}
+	case 3: // contention
+		b.WriteString(rapid.SampledFrom([]string{"--- contentionz 1 ---", "--- mutex:", "--- contention:", "--- contentionz"}).Draw(t, "chdr") + "\n")
+		for _, k := range []string{"cycles/second", "sampling period", "ms since reset", "format", "resolution", "discarded samples", "bogus key"} {
+			if rapid.IntRange(0, 2).Draw(t, "attr") == 0 {
+				b.WriteString(k + rapid.SampledFrom([]string{" = ", "=", " =", ": "}).Draw(t, "eq") + num("v") + "\n")
+			}
+		}
+		for i := 0; i < nrec; i++ {
+			b.WriteString(num("cyc") + " " + num("cnt") + " @ " + stack() + "\n")
+		}
+	case 4: // threadz
+		b.WriteString("--- threadz " + num("n") + " ---\n\n")
+		for i := 0; i < nrec; i++ {
+			b.WriteString("--- Thread " + rapid.SampledFrom([]string{"7f01", "0", "zz"}).Draw(t, "tid") + " (name: " + rapid.SampledFrom([]string{"main/1", "", "a(b)"}).Draw(t, "tname") + ") stack: ---\n")
+			if rapid.IntRange(0, 3).Draw(t, "same") == 0 {
+				b.WriteString("  ---- no stack trace for thread (12)\n")
+			} else {
+				for j := rapid.IntRange(0, 3).Draw(t, "frames"); j > 0; j-- {
+					b.WriteString("  PC: " + addr("pc") + rapid.SampledFrom([]string{"", " func", ""}).Draw(t, "fn") + "\n")
+				}
+			}
+		}
+	case 5: // java
+		b.WriteString(rapid.SampledFrom([]string{"--- heapz 1 ---", "--- contentionz 1 ---", "--- heapz " + num("r") + " ---"}).Draw(t, "jhdr") + "\n")
+		for i := 0; i < nrec; i++ {
+			b.WriteString(num("a") + ": " + num("b") + " [" + num("c") + ": " + num("d") + "] @ " + stack() + "\n")
+		}
+		if rapid.Bool().Draw(t, "jsym") {
+			b.WriteString("\n 0x400100 com.x.A.f (A.java:12)\n 0x401000 noparens\n 0xzz bad (x:y)\n 0x1 g (B.java)\n")
+		}
+	default: // growth / free-form
+		b.WriteString(rapid.SampledFrom([]string{"%", "% x\n", "heap profile:\n", "--- ", "\n\n"}).Draw(t, "free"))
+	}
+	switch rapid.IntRange(0, 3).Draw(t, "sentinel") {
+	case 1:
+		b.WriteString("\nMAPPED_LIBRARIES:\n")
+	case 2:
+		b.WriteString("\n--- Memory map: ---\n")
+	case 3:
+		b.WriteString("\n")
+	}
+	for i := rapid.IntRange(0, 4).Draw(t, "nmaps"); i > 0; i-- {
+		rng := rapid.SampledFrom([]string{"00400000-00401000", "00401000-00400000", "00400000-00400000", "0-ffffffffffffffff", "ffffffffffffffff-0", "7f0000000000-7f0000001000", "zz-yy", "00400000", "-", "00400000-10000000000000000"}).Draw(t, "range")
+		file := rapid.SampledFrom([]string{"/bin/app", "(deleted)", "/bin/app (deleted)", " (deleted)", "", "[vdso]", "[vsyscall]", "[", "//anon", "/lib/libc.so.6", "lib.so", ".so", "/dev/dri/card0", "a b c", "/bin/%s", "$build/x", "http://x/y"}).Draw(t, "mfile")
+		if rapid.Bool().Draw(t, "briefmap") {
+			b.WriteString(rng + ": " + file + "\n")
+		} else {
+			perm := rapid.SampledFrom([]string{"r-xp", "r-xp", "rw-p", "---p", "r-x", "rwxp", "xxxx", ""}).Draw(t, "perm")
+			off := rapid.SampledFrom([]string{"00000000", "00001000", "ffffffffffffffff", "zz", ""}).Draw(t, "off")
+			b.WriteString(rng + " " + perm + " " + off + " " + rapid.SampledFrom([]string{"00:00", "fd:01", "x"}).Draw(t, "dev") + " " + rapid.SampledFrom([]string{"0", "1234", "-1"}).Draw(t, "inode") + " " + file + "\n")
+		}
+	}
+	if rapid.IntRange(0, 4).Draw(t, "buildline") == 0 {
+		b.WriteString("build=" + rapid.SampledFrom([]string{"abc", "", "$x"}).Draw(t, "build") + "\n")
+	}
+	return b.String()
+}
